@@ -248,8 +248,10 @@ func (view *View) group(ctx context.Context, scope *ReferenceScope, items []pars
 	for _, item := range items {
 		switch item.(type) {
 		case parser.FieldReference, parser.ColumnNumber:
-			idx, _ := view.Header.SearchIndex(item)
-			view.Header[idx].IsGroupKey = true
+			// A grouping key may refer to a field of an outer query, or, on a view without records, to nothing at all.
+			if idx, err := view.Header.SearchIndex(item); err == nil {
+				view.Header[idx].IsGroupKey = true
+			}
 		}
 	}
 	return nil
